@@ -11,7 +11,8 @@ from .c04 import ST_op
 PROPERTY = 'C16'
 LEVEL = 'fault_enumeration'
 RULE = ('collect(*activities) and first(*activities, count=k) for every assignment of durations {0,1,2} (ties, zero), results and <= 2 '
-        'failures to <= 3 (quick) / 4 (thorough) activities (also an activity that itself collects two slow ones), every count in '
+        'failures to <= 3 (quick) / 4 (thorough) activities (also an activity that itself collects two slow ones, activities pausing '
+        'in delay(), contending for one lock, waiting for a nested condition), every count in '
         '{0..n+1, None, default}, consumers {eager, sleeps 1 after each item, breaks after the first}; fault-free and with the calling '
         'activity cancelled at every activation boundary. Oracle: sort-by-completion model on the observed completion order, result '
         'times, failure content, and no record of any aborted activity afterwards; non-trivial = durations tie, an activity fails, '
@@ -32,6 +33,12 @@ def act_script(name, d, outcome):
     if outcome == 'tick':
         # an activity that pauses in usim.delay(): it is suspended by a plain timed suspension, not by a notification
         return [['DELAYLOOP', 1, max(d, 1), [[] for _ in range(max(d, 1))]], ['RETURN', name]]
+    if outcome == 'lock':
+        # activities that contend for one lock (an aborted activity may be its holder or its designated next owner)
+        return [['LOCK', 'l', [['D', d]]], ['RETURN', name]]
+    if outcome == 'cond':
+        # an activity that waits for a nested condition of mixed connectives; the helper raises the flag at time d
+        return [['WAIT', ['OR', ['AND', ['GE', 0], ['F', 'A']], ['GE', 9]]], ['RETURN', name]]
     if outcome == 'nest':
         return s + [['COLLECT', [name + 'x', name + 'y'], [[['D', 3], ['RETURN', 1]], [['D', 3], ['PROBE', 'now'], ['RETURN', 2]]]], ['RETURN', name]]
     raise ValueError(outcome)
@@ -50,9 +57,14 @@ def program(kind, acts, count=None, consumer='eager', until_now=False):
     if until_now:
         # the caller is interrupted by a date that is due at the very moment the block is entered
         caller = [['UNTIL', 'now', ['EQ', 0], [op, ['PROBE', 'now']]], ['PROBE', 'now'], ['D', 4], ['PROBE', 'now'], ['INSTANT']]
-    return {'_nops': 60, '_meta': {'kind': kind, 'acts': [list(a) for a in acts], 'count': count, 'consumer': consumer,
-                                   'until_now': until_now},
-            'roots': [['root', [['SCOPE', 'm', [['DO', 'caller', caller]]], ['PROBE', 'now']]]]}
+    kids = [['DO', 'caller', caller]]
+    conds = sorted({d for d, o in acts if o == 'cond'})
+    if conds:
+        kids.insert(0, ['DO', 'h', [['D', conds[0]], ['SET', 'A', True]]])
+    tail = [['LOCK', 'l', []]] if any(o == 'lock' for _, o in acts) else []       # the lock must be free afterwards
+    return {'_nops': 60, 'objs': {'l': 'Lock', 'A': 'Flag'},
+            '_meta': {'kind': kind, 'acts': [list(a) for a in acts], 'count': count, 'consumer': consumer, 'until_now': until_now},
+            'roots': [['root', [['SCOPE', 'm', kids]] + tail + [['PROBE', 'now']]]]}
 
 
 def BOUNDS(tier):
@@ -75,6 +87,18 @@ def cases(tier):
                         continue
                     if n >= 3 and sum(1 for a in acts if a[1] != 'ok') > 1 and consumer != 'eager':
                         continue
+                    out.append(program('first', acts, count, consumer))
+    # activities that use other primitives: a shared lock, a nested condition
+    special = [(1, 'lock'), (2, 'lock'), (2, 'cond'), (1, 'ok'), (1, 'fail')]
+    for n in (2, 3):
+        for acts in itertools.product(special, repeat=n):
+            if not any(o in ('lock', 'cond') for _, o in acts) or sum(1 for a in acts if a[1] == 'fail') > 1:
+                continue
+            out.append(program('collect', acts))
+            for count in list(range(0, n + 1)) + [None]:
+                for consumer in ('eager', 'slow', 'break1'):
+                    if any(o == 'fail' for _, o in acts) and consumer == 'slow':
+                        continue        # (the shape of known finding C16/first-failure-during-consumer-body)
                     out.append(program('first', acts, count, consumer))
     for acts in itertools.product([(1, 'ok'), (2, 'ok'), (2, 'tick')], repeat=2):
         out.append(program('collect', acts, until_now=True))
@@ -132,7 +156,13 @@ def judge(ctx, program, hit_caller=False):
                 if fin[2] != t_fail:
                     msgs.append('first failure at %r but collect raised at %r' % (t_fail, fin[2]))
         else:
-            dur = [(max(d, 1) if o == 'tick' else d + (3 if o == 'nest' else 0)) for d, o in acts]
+            dur, held = [], 0
+            for d, o in acts:
+                if o == 'lock':
+                    held += d           # the lock is handed over in the order in which the activities asked for it
+                    dur.append(held)
+                else:
+                    dur.append(max(d, 1) if o == 'tick' else d + (3 if o == 'nest' else 0))
             t_end = t0 + (max(dur) if dur else 0)
             if fin is None or fin[1] != 'end' or fin[3] != names or fin[2] != t_end:
                 msgs.append('collect should return %r at %r, got %r' % (names, t_end, fin and fin[1:]))
@@ -189,8 +219,9 @@ def check_exec(program, faults=()):
     msgs, nontrivial, key = judge(ctx, program)
     if ctx.outcome is not None:
         msgs.append('run() raised %r' % (ctx.outcome,))
-    if not faults and not any(r[0] == 'finish' and r[1] == 'root' for r in ctx.log):
-        msgs.append('the root never finished')
+    lockers = any(o == 'lock' for _, o in program['_meta']['acts'])
+    if (not faults or lockers) and not any(r[0] == 'finish' and r[1] == 'root' for r in ctx.log):
+        msgs.append('the root never finished' + (' (it takes the lock that the activities used)' if lockers else ''))
     return ctx, msgs, nontrivial, key
 
 
